@@ -96,6 +96,13 @@ def setitem(I, obj, idx, value):
             I.mutations.append(obj)
             return
         raise Unsupported("SSeq item store")
+    if isinstance(obj, SCompressed) and isinstance(idx, SCompressed) and idx.kind == "bool" \
+            and A.same_mask(I, idx.maskfn, obj.maskfn) and not A.is_arraylike(value):
+        # x[x > 1] = 1 on a selection (a selection is a copy in numpy, so only this object changes)
+        f, g = obj.fn, idx.fn
+        obj.fn = lambda i: A.ite_val(V.bterm(g(i)), value, f(i))
+        I.mutations.append(obj)
+        return
     raise Unsupported(f"item store on {obj!r}")
 
 
